@@ -15,7 +15,7 @@ from common import Ctx, hexs
 TRUSTED = [
     "Lean 4.33 kernel; axioms ⊆ {propext, Classical.choice, Quot.sound}",
     "harness/mockcore (cell matrix, virtual millis() with scripted drift) + host g++",
-    "millis() wrap-around is outside the model (Nat clock); ASCII text",
+    "the counter model (Fw.tickW) is run with W = 2^64, the width of the host compiler's unsigned long; on the board W = 2^32 (the theorems hold for every W); ASCII text",
     "`ticked once per loop() pass without delay` is decided on the emitted code by the trace monitor",
 ]
 HEAD = ["from Reduino.Displays import LCD", "from Reduino.Communication import SerialMonitor", "from Reduino.Utils import sleep"]
@@ -123,7 +123,11 @@ def run(ctx: Ctx) -> int:
     jobs = [(cpp, cases[i][4], "t " + " ".join(map(str, cases[i][5])) + (f"\nT {STARTS[i]}" if STARTS[i] else "")) for i, (cpp, e) in enumerate(outs) if cpp is not None]
     res_iter = iter(cxx.run_many(ctx, jobs))
     results = [next(res_iter) if cpp is not None else None for cpp, e in outs]
-    fw_model = ctx.lean.drive([f"lcdanim|fw|{c} {r}|{' '.join(map(str, d))}|{s}|{p}|{spec(a)}" for c, r, a, s, p, d in cases])
+    # runs that start near the wrap are driven through the counter model (Fw.tickW, W = 2^64 for the host compiler's unsigned long);
+    # Props.C18.fw_run_across_wrap relates it to the natural-number model
+    fw_model = ctx.lean.drive([f"lcdanim|fw|{c} {r}|{' '.join(map(str, d))}|{s}|{p}|{spec(a)}" if not st else
+                               f"lcdanim|fwW|{c} {r}|{' '.join(map(str, d))}|{s}|{p}|{spec(a)}|{2 ** 64}|{st}"
+                               for (c, r, a, s, p, d), st in zip(cases, STARTS)])
     for (cols, rows, anims, sleep_ms, passes, drifts), src, (cpp, exc), res, m, start in zip(cases, srcs, outs, results, fw_model, STARTS):
         replay = {"script": src, "drifts": drifts, "passes": passes, "clock_start": start}
         for a in anims:
@@ -145,9 +149,7 @@ def run(ctx: Ctx) -> int:
         model_grids = [x.split(" ")[0] for x in mp]
         if start:
             ctx.count("run-across-counter-wrap")
-            rate_monitor(ctx, segs[1:], anims, start, replay)
-            continue          # the model's clock is a Nat starting at 0: these runs keep the trace monitors only
-        rate_monitor(ctx, segs[1:], anims, 0, replay)
+        rate_monitor(ctx, segs[1:], anims, start, replay)
         if impl_grids != model_grids[: len(impl_grids)] or len(impl_grids) != len(model_grids):
             k = next((i for i, (a, b) in enumerate(zip(impl_grids, model_grids)) if a != b), min(len(impl_grids), len(model_grids)))
             ctx.tie_diff("tie S_c anim (Lcd.Fw animation model vs compiled templates, cells after each pass)",
